@@ -65,6 +65,66 @@ add('C09', 'exploration', 'exhaustive enumeration of finite meta domains + Hypot
     'construction and counted.',
     TRUST + ' Text is latin-1 here; charsets are C17.')
 
+add('C10', 'exploration', 'harness-owned deterministic thread scheduler: exhaustive bounded-preemption schedule enumeration + Hypothesis-drawn schedules, history-invariant oracle',
+    'Real threads run under lib/sched.py, which owns the interleaving at statement granularity (one runnable thread, '
+    'yield at every traced line, cooperative RLock shim, sleep = forced yield). For a fixed set of small programs over '
+    'every port kind every schedule with <= 1 preemption (quick) / <= 2 preemptions (thorough; windowed for the longest '
+    'programs) and every starting thread is enumerated; larger programs and dense random schedules are drawn by '
+    'Hypothesis. The history is judged by exactly-once / intact / per-sender order / copy / termination invariants.',
+    TRUST + ' Also trusted: the scheduler itself. Switches inside a single statement are not explored; schedule '
+    'enumeration is bounded (preemption bound, program size).')
+add('C11', 'exploration', 'Hypothesis rule-based state machines per port kind + exhaustive self-close positions, executable model oracle with counted fake sleep',
+    'One state machine per port kind against an executable model of queue/wire/closure, with mido.ports.sleep replaced '
+    'by a counting fake that plays scripted arrivals and device self-closure; blocking behaviour is decided as bounded '
+    'safety (exact sleep-tick counts, budget). Every position of the self-close among 0-3 arrivals x drain method is '
+    'enumerated.',
+    TRUST + ' "Never blocks forever" is checked against a 40-tick budget (correct code needs at most the script length).')
+add('C12', 'exploration', 'Hypothesis + reference merge model (differential oracle)',
+    'Drawn track lists (ties, floats, end_of_track anywhere, all three message classes) are merged and compared message '
+    'by message with a reference merge (absolute tick, track index, position) plus structural invariants and '
+    'input-unchanged snapshots.',
+    TRUST)
+add('C13', 'exploration', 'Hypothesis + exact rational tempo map, fake clock simulation of play()',
+    'Iteration and length are compared with an exact Fraction tempo-map integral over the reference merge order; play() '
+    'runs on a fake clock with drawn consumer delays and oversleeps and its recorded sleep calls must equal a simulation '
+    'of "sleep exactly the remaining time"; tick2second/second2tick are checked as inverses over the full parameter ranges.',
+    TRUST + ' Stated float tolerances (1e-12 per message, 1e-9 cumulative, few ulps of the clock origin).')
+add('C14', 'exploration', 'Hypothesis round-trip / negative-grammar generation, eval(repr) in a restricted namespace',
+    'Round trips through str, dict and repr for all message classes, tracks and files; negative texts are built by '
+    'mutating valid lines with a catalogue of defects; streams mix valid, blank, comment and invalid lines; arbitrary '
+    'token soup checks totality (valid message or ValueError).',
+    TRUST + ' Lexical liberties of int()/float() and skip_checks= in text are not judged.')
+add('C15', 'exploration', 'Hypothesis over values x override sets x assignments, value-semantics oracle with multi-route hashing',
+    'copy/freeze/thaw are checked for class mapping, equality, independence, rejection of every mutation on frozen '
+    'messages and hash/dict agreement between equal messages built along different routes (constructor, from_bytes, file, '
+    'copy, float time). One recorded finding (KF-C15-b) is excluded by construction and counted.',
+    TRUST)
+add('C16', 'exploration', 'Hypothesis rule-based state machine, history-independence oracle against a freshly built file',
+    'Edits through every documented route interleaved with observations (iterate, length, merged_track, play, save); '
+    'each observation must equal the same observation on a freshly constructed MidiFile with the model contents; the '
+    'model is cross-checked against mid.tracks after every step.',
+    TRUST)
+add('C17', 'fault_enumeration', 'Hypothesis-drawn files x enumeration of every fault point (truncation offset, bad byte, bad charset, failing n-th event), public-API probe oracle',
+    'For each drawn (charset, texts) file every load truncation offset and every listed load/save fault is executed; '
+    'after every call a probe through the public API shows whether latin1 is in force again; the success path compares '
+    'file bytes with text.encode(charset) via the strict reference decoder.',
+    TRUST + ' Faults are those a load/save can meet from its inputs (no injected OS errors).')
+add('C18', 'fault_enumeration', 'Hypothesis-drawn message lists x enumeration of every disconnect offset over socketpair, prefix oracle; TCP PortServer scenarios; exhaustive address grid',
+    'Every cut offset of every drawn stream (segmentation and poll placement drawn) is executed on an AF_UNIX socketpair '
+    'with each drain method; the port must yield exactly the complete-message prefix, end iteration cleanly and report '
+    'closed. Close propagation, send direction, PortServer with disconnecting clients and all 65535 ports x 7 hosts for '
+    'the address functions are covered.',
+    TRUST + ' The TCP part asserts timing-independent facts only (5 s deadline = lost, not slow, on loop-back).')
+add('C19', 'exploration', 'Hypothesis round trip through real temporary files + hand-formatted files, negative hex grammar',
+    'Message lists are written in both SYX formats and read back; hand-written text (any whitespace, mixed case) and '
+    'binary files must read to the expected sysex list; a catalogue of malformed hex texts must raise ValueError.',
+    TRUST)
+add('C20', 'exploration', 'exhaustive enumeration of the configuration grid with an in-memory import finder, reference-resolution oracle',
+    'The complete grid of function x name x environment x backend naming x api source x use_environ x load x module shape '
+    'x entry point is executed against fake backend modules served by a logging import finder; constructor arguments, '
+    'import timing/count, result types and listings are compared with a reference resolution written from the statement.',
+    TRUST + ' Cells the statement leaves undefined are not generated.')
+
 NOT_YET = {}
 
 
